@@ -18,6 +18,7 @@ limitations under the License.
 
 #include <algorithm>
 #include <memory>
+#include <numeric>
 #include <vector>
 
 #include "libcellml/component.h"
@@ -349,10 +350,17 @@ bool ComponentEntity::doEquals(const EntityPtr &other) const
         if ((componentEntity != nullptr)
             && pFunc()->mEncapsulationId == componentEntity->encapsulationId()
             && pFunc()->mComponents.size() == componentEntity->componentCount()) {
+            // Match the child components as multisets: every child of the
+            // other entity can be the partner of only one of our children.
+            std::vector<size_t> unmatchedIndex(componentEntity->componentCount());
+            std::iota(unmatchedIndex.begin(), unmatchedIndex.end(), 0);
             for (const auto &component : pFunc()->mComponents) {
-                if (!componentEntity->containsComponent(component, false)) {
+                auto match = std::find_if(unmatchedIndex.begin(), unmatchedIndex.end(),
+                                          [=](size_t index) -> bool { return component->equals(componentEntity->component(index)); });
+                if (match == unmatchedIndex.end()) {
                     return false;
                 }
+                unmatchedIndex.erase(match);
             }
             return true;
         }
